@@ -111,6 +111,7 @@ func (e *Engine) VerifyFunction(c *Contract) (res *FuncResult) {
 	}
 	e.fnContract[fn] = c
 	e.curFunc = c.FullName()
+	e.curPkg = c.PkgPath
 	e.havocCells = map[*ssa.BasicBlock]map[ssa.Value]bool{}
 	e.havocHeaps = map[*ssa.BasicBlock]map[string]bool{}
 	e.havocClock = map[*ssa.BasicBlock]bool{}
